@@ -668,7 +668,8 @@ func NewOneOfStructure(elems []specification.Ref[specification.Schema], d specif
 			return zero, nil, fmt.Errorf("new oneOf schema for %d-th element: %w", i, err)
 		}
 		imports = append(imports, ims...)
-		if schema.Ref != nil && schema.IsNullable() {
+		// (asked of the specification: the generator's own view of a component built later is still a placeholder)
+		if schema.Ref != nil && e.Value().Nullable {
 			return zero, nil, fmt.Errorf("oneOf: %d-th element: %q is nullable: a nullable schema cannot be a variant of oneOf", i, schema.Ref.Name)
 		}
 		s.Elements = append(s.Elements, OneOfElement{
